@@ -130,8 +130,8 @@ def gen_inventory(r, n_classes=None, shape=None, nested=False, relative=0, n_nod
     return {"op": "inventory", "config": config, "files": files + node_files}
 
 
-SEGS = ["a", "b", "c.d", "_u", "x-1", "init", ".h", "e"]
-NAMES = ["a", "b", "c.d", "_u", "init", ".h", "foo.bar", "a.b.c", "init.x", "e"]
+SEGS = ["a", "b", "c.d", "_u", "x-1", "init", ".h", "e", "reinit"]
+NAMES = ["a", "b", "c.d", "_u", "init", ".h", "foo.bar", "a.b.c", "init.x", "e", "cloud-init", "reinit", "xinit", "initx", "_init", "a.init"]
 
 
 def gen_tree(r, kind_root, n_files, max_depth=3, symlinks=True, strays=True, dir_yml=True):
